@@ -89,6 +89,18 @@ DET = {
  "C10-m6": ("C10", "./check C10 --tier quick -> exit 1 (witness with trailing bytes decodes)", ""),
  "C11-m5": ("C11", "./check C11 --tier quick -> exit 1 (FFI leaves the caller's output descriptor untouched when the result is empty)", "missed at first; the output descriptor handed to every FFI call now designates an earlier result instead of being empty"),
  "C11-m6": ("C11", "./check C11 --tier quick -> exit 1 (FFI leaf count / sequential batch position after a deletion)", ""),
+ "C05-m3": ("C05", "./check C05 --tier quick -> exit 1 (input with a zero limb below a non-zero one converted wrongly)", ""),
+ "C05-m4": ("C05", "./check C05 --tier quick -> exit 1 (input d*2^192 + a truncated to its low limb)", ""),
+ "C14-m5": ("C14", "./check C14 --tier quick -> exit 1 (seed longer than 256 bytes / delivered in pieces truncated)", ""),
+ "C14-m6": ("C14", "./check C14 --tier quick -> exit 1 (unseeded identity after a seeded call repeats)", ""),
+ "C17-m5": ("C17", "./check C17 --tier quick -> exit 1 (default build: writing the stored value does not raise the mark)", ""),
+ "C17-m6": ("C17", "./check C17 --tier quick -> exit 1 (full build: a rejected write beyond capacity moves the mark, later appends fail)", "missed at first; rejected writes beyond the capacity added to the histories"),
+ "C18-m5": ("C18", "./check C18 --tier quick -> exit 1 (one failing hash call poisons the shared hasher for every thread)", "missed at first; the shared workload now contains a call that fails by itself (nine Poseidon inputs), last in the sequential reference"),
+ "C18-m6": ("C18", "./check C18 --tier quick -> exit 1 (re-creation on the same location after a plain drop refused)", ""),
+ "C19-m5": ("C19", "./check C19 --tier quick -> exit 1 (comparisons of operands far apart on the signed axis inverted in the Montgomery evaluator)", ""),
+ "C19-m6": ("C19", "./check C19 --tier quick -> exit 1 (shr by 128..253)", ""),
+ "C20-m5": ("C20", "./check C20 --tier quick -> exit 1 (wide right shifts inside graphs)", ""),
+ "C20-m6": ("C20", "./check C20 --tier quick -> exit 1 (stored graph not readable through short-read readers)", ""),
  "C09-m1": ("C09", "./check C09 --tier quick -> exit 1 (Poseidon of 8 inputs: round certificate rejected)", ""),
  "C09-m2": ("C09", "./check C09 --tier quick -> exit 1 (byte-level / FFI hash of a 4097-byte signal differs from Keccak.tla)", "missed at first; hash-to-field lengths 4095, 4096, 4097 (8192, 10000 thorough) added"),
  "C11-m1": ("C11", "./check C11 --tier quick -> exit 1 (metadata after set_tree differs between FFI and API)", "missed at first; life-cycle scenario and set_tree inside random histories added"),
